@@ -77,6 +77,23 @@ def generate(rng, tier, seed):
                     if any(d != (8 * variant if j % 8 == 0 else 0) for j, d in enumerate(diff)):
                         c.fail("variant applied at the wrong position")
                 yield c
+    # keys with components that already have odd parity (the DES weak / semi-weak keys do) beside components that do not, and
+    # keys with repeated components, through the parity adjustment and every variant: each byte is judged on its own
+    import core as _core
+    for size in (8, 16, 24):
+        for key in _core.special_keys(rng, size, limit=40 if tier == "quick" else None):
+            c = Case("adjust_key_parity:special-key", {"size": size})
+            r = c.call("des.adjust_key_parity", key)
+            if not r.ok or any(bin(b).count("1") % 2 != 1 for b in r.value) or any((a ^ b) & 0xFE for a, b in zip(r.value, key)) or len(r.value) != size:
+                c.fail(f"adjust_key_parity({key.hex()}) = {r.value.hex() if r.ok else r.err}: not every byte has odd parity with only the lowest bit changed")
+            yield c
+            v = rng.randrange(0, 32)
+            c = Case("apply_key_variant:special-key", {"size": size, "variant": v})
+            r = c.call("des.apply_key_variant", key, v)
+            exp = bytes(b ^ (8 * v if i % 8 == 0 else 0) for i, b in enumerate(key))
+            if not r.ok or bytes(r.value) != exp:
+                c.fail(f"apply_key_variant({key.hex()}, {v}) is not the key with 8*v XORed into the first byte of every component")
+            yield c
     # xor
     top = 40 if tier == "quick" else 64
     for n in range(0, top + 1):
